@@ -562,6 +562,86 @@ def lemmas_c05(workdir):
 GROUPS['c05'] = lemmas_c05
 
 
+
+def _fp_value(m):
+    """z3 FPNumRef -> the Python float with the same bits."""
+    import struct
+    bits = (int(str(m.sign_as_bv())) << 63) | (m.exponent_as_long(True) << 52) | m.significand_as_long()
+    return struct.unpack('>d', bits.to_bytes(8, 'big'))[0]
+
+
+def _run_witness(prop, shape, args):
+    """Run one concrete witness scenario of harness/witness.py on the real classes (plain CPython, this process).
+    Returns None if the property held, else {'label', 'detail', 'replay'} with a replay file for ./check --replay."""
+    import hashlib
+    from engine import stubs
+    from engine.ctx import Ctx, PropertyViolation
+    from harness import witness
+    stubs.install(symbolic=False)
+    stubs.reset_globals()
+    ctx = Ctx(False, weights=[])
+    stubs.set_ctx(ctx)
+    try:
+        witness.run(shape, dict(args), ctx)
+        return None
+    except PropertyViolation as v:
+        label, detail = v.label, str(v.detail)[:1500]
+    root = os.path.dirname(os.path.dirname(os.path.abspath(__file__)))
+    h = hashlib.sha1(json.dumps([shape, args], sort_keys=True).encode()).hexdigest()[:10]
+    rp = os.path.join(root, 'replays', f'{prop}-W1-{h}.json')
+    os.makedirs(os.path.dirname(rp), exist_ok=True)
+    json.dump({'property': prop, 'harness': 'harness.witness', 'shape': shape, 'args': args, 'weights': [], 'label': label}, open(rp, 'w'))
+    return {'label': label, 'detail': detail, 'replay': rp}
+
+
+# ------------------------------------------------------------------------------------------------
+# C12-W1: solver-chosen fractional capacities for the Maintainer (witness check, not a proof)
+# ------------------------------------------------------------------------------------------------
+def lemmas_c12(workdir):
+    """The Maintainer keeps its capacity in use as a *running* float sum (+= at selection, -= at finish).  On the integer
+    grid of the CrossHair analyses that sum is exact.  z3 (QF_FP) is asked for doubles a, b whose add/subtract round trip
+    ((0+a)+b)-a)-b (either finishing order) is not 0; the real Maintainer is run with two overlapping orders needing a and
+    b, and afterwards - nothing in progress - an order needing the whole capacity is requested.  It fits and its target is
+    free, so it must start at once (property: no queued order that fits is left waiting)."""
+    base = {'name': 'C12-W1 capacity bookkeeping on solver-chosen fractional capacities', 'solver': 'z3 %s (QF_FP, sat queries)' % z3.get_version_string(),
+            'queries': 0, 'solver_s': 0.0,
+            'assumptions': ['C12-W1 is a witness check: fractional needed capacities are chosen by the solver such that the float '
+                            'round trip ((a+b)-a)-b or ((a+b)-b)-a is non-zero; nothing is claimed for other fractional capacities']}
+    t0 = time.time()
+    rne, dbl = z3.RNE(), z3.Float64()
+    witnesses = []
+    for first, sign in (('a', 1), ('b', 1), ('a', -1)):
+        s = z3.Solver()
+        s.set('timeout', 60000)
+        a, b = z3.FP('a', dbl), z3.FP('b', dbl)
+        for x in (a, b):
+            s.add(z3.fpGEQ(x, z3.FPVal(0.015625, dbl)), z3.fpLEQ(x, z3.FPVal(8.0, dbl)))
+        u = z3.fpAdd(rne, z3.fpAdd(rne, z3.FPVal(0.0, dbl), a), b)
+        x1, x2 = (a, b) if first == 'a' else (b, a)
+        r = z3.fpSub(rne, z3.fpSub(rne, u, x1), x2)
+        s.add(z3.fpGT(r, z3.FPVal(0.0, dbl)) if sign > 0 else z3.fpLT(r, z3.FPVal(0.0, dbl)))
+        base['queries'] += 1
+        if s.check() == z3.sat:
+            m = s.model()
+            witnesses.append((first, _fp_value(m[a]), _fp_value(m[b])))
+    base['solver_s'] = round(time.time() - t0, 2)
+    witnesses += [('a', 0.1, 0.2), ('b', 0.1, 0.2), ('a', 0.5, 0.25)]      # the classic decimals, and an exact dyadic pair as control
+    bad = []
+    for first, a, b in witnesses:
+        v = _run_witness('C12', {'kind': 'c12_residue', 'first': first}, {'a': a, 'b': b})
+        if v is not None:
+            bad.append(((first, a, b), v))
+    r = dict(base, translator_validated_on=len(witnesses))
+    if bad:
+        r.update(status='violated', replay=bad[0][1]['replay'], name='C12-W1 ' + bad[0][1]['label'], detail=bad[0][1]['detail'])
+    else:
+        r.update(status='proved', detail='witness-ok (not a proof): with two overlapping orders of the solver-chosen needed capacities '
+                                         f'{witnesses} finished, an order needing the whole capacity starts at once')
+    return [r]
+
+
+GROUPS['c12'] = lemmas_c12
+
 # ------------------------------------------------------------------------------------------------
 # C19-W1: solver-chosen floating-point intervals for the periodic sensor (witness check, not a proof)
 # ------------------------------------------------------------------------------------------------
@@ -595,29 +675,14 @@ def lemmas_c19(workdir):
             witnesses.append(struct.unpack('>d', bits.to_bytes(8, 'big'))[0])
     base['solver_s'] = round(time.time() - t0, 2)
     witnesses += [0.1, 0.7]          # the classic non-dyadic decimals, in case a query timed out
-    from simprocesd.model import System
-    from simprocesd.model.sensors import PeriodicSensor, AttributeProbe
     bad = []
     for w in witnesses:
-        class _O:
-            x = 1
-        system = System()
-        ps = PeriodicSensor(w, [AttributeProbe('x', _O())], name='ps')
-        seen = []
-        ps.add_on_sense_callback(lambda sns, t, d: seen.append(t))
-        system.simulate(w * 9.5, print_summary=False)
-        want, acc = [], 0
-        for _ in range(len(seen)):
-            acc = acc + w
-            want.append(acc)
-        if seen != want or list(ps.data['time']) != want or len(seen) < 8:
-            bad.append((w, seen[:9], want[:9]))
+        v = _run_witness('C19', {'kind': 'c19_interval'}, {'interval': w})
+        if v is not None:
+            bad.append((w, v))
     r = dict(base, translator_validated_on=len(witnesses))
     if bad:
-        rp = os.path.join(os.path.dirname(os.path.dirname(os.path.abspath(__file__))), 'replays', 'C19-W1.json')
-        json.dump({'interval': bad[0][0], 'sampled_at': bad[0][1], 'repeated_addition': bad[0][2]}, open(rp, 'w'))
-        r.update(status='violated', replay=rp, name='C19-W1 k-th measurement is not the k-fold repeated addition of the interval',
-                 detail=f'interval={bad[0][0]!r}: sampled at {bad[0][1][:7]} instead of {bad[0][2][:7]}')
+        r.update(status='violated', replay=bad[0][1]['replay'], name='C19-W1 ' + bad[0][1]['label'], detail=bad[0][1]['detail'])
     else:
         r.update(status='proved', detail=f'witness-ok (not a proof): sampling instants equal repeated addition for the solver-chosen '
                                          f'intervals {witnesses}')
